@@ -44,6 +44,8 @@ CHECKS = {
          "Held on generated foreign packages (arbitrary prefixes, wrappers around runs, extra parts with own relationships, media of any name) opened and saved with and without append-only edits."),
  "C19": ("exploration", "crash/hang monitor + package monitor over hostile Markdown (inputs written to disk first) and token-sequence/formatting/structure comparison between the generator's block/inline tree and the converted document", "3.1, 3.4, 4/C19",
          "Held on hostile byte strings and on Markdown generated from the listed constructs with unique word tokens, under all 64 option combinations and TOC levels 0-7."),
+ "C20": ("exploration", "unique-token ledger of the generated document checked in the exported Markdown (exactly once, body order, independent tokenisation of the markers around each token) and round-trip differential export -> convert -> export (block kind per token, fixpoint of the Markdown)", "4/C20",
+         "Held on generated documents over the exporter's vocabulary in every interleaving, with and without Markdown metacharacters in the text, under random export option combinations; the simple (non-GFM) table style is exempt from the round trip because it has no table syntax."),
 }
 PENDING = {}
 ALL = ["C%02d" % i for i in range(1, 21)]
